@@ -5,6 +5,7 @@ import (
 	"bytes"
 	"fmt"
 	"reflect"
+	"strings"
 
 	cedar "github.com/cedar-policy/cedar-go"
 	publicast "github.com/cedar-policy/cedar-go/ast"
@@ -92,14 +93,27 @@ func classifyFolded(dec cedar.Decision, diag cedar.Diagnostic, forbid bool) stri
 func checkExpr(t *core.T, opName string, e *Expr, light bool) bool {
 	nontriv := false
 	for pi, pl := range placements {
-		pAST := pl.mk(e.ToAST())
-		pCopy := pl.mk(e.ToAST())
-		in := func() string { return fmt.Sprintf("%s { %s }", pl.name, e.String()) }
+		pl := pl
+		if checkPolicy(t, opName, func() string { return fmt.Sprintf("%s { %s }", pl.name, e.String()) }, func() *xast.Policy { return pl.mk(e.ToAST()) }, light && pi > 0) {
+			nontriv = true
+		}
+	}
+	return nontriv
+}
+
+// checkPolicy compares the folded path (Authorize on the compiled policy) with the
+// unfolded path (Eval of the original tree) in every environment, and the visible forms
+// before / after compilation. mk must build a fresh, identical policy on every call.
+func checkPolicy(t *core.T, opName string, in func() string, mk func() *xast.Policy, skipForms bool) bool {
+	nontriv := false
+	{
+		pAST := mk()
+		pCopy := mk()
 		beforeCedar := (*publicast.Policy)(pCopy).MarshalCedar()
 		beforeJSON, jerr := (*publicast.Policy)(pCopy).MarshalJSON()
 		var pol *cedar.Policy
 		if t.Protect("compile:"+opName, in(), func() { pol = cedar.NewPolicyFromAST((*publicast.Policy)(pAST)) }) {
-			continue
+			return false
 		}
 		ps := cedar.NewPolicySet()
 		ps.Add("p", pol)
@@ -137,8 +151,8 @@ func checkExpr(t *core.T, opName string, e *Expr, light bool) bool {
 		if len(classes) > 1 {
 			nontriv = true // the policy's class depends on the request / entity store
 		}
-		if light && pi > 0 {
-			continue
+		if skipForms {
+			return nontriv
 		}
 		// visible forms unchanged by compilation and by authorizing
 		if !reflect.DeepEqual((*xast.Policy)(pol.AST()), pCopy) {
@@ -153,6 +167,76 @@ func checkExpr(t *core.T, opName string, e *Expr, light bool) bool {
 		}
 	}
 	return nontriv
+}
+
+// condition lists: every list of 1..3 when/unless clauses over constant, erroring-constant
+// and request-dependent bodies, under two scope forms: folding happens per clause and the
+// clauses are then conjoined, so what one clause folds to must not change how the
+// others are (or are not) evaluated.
+func condLists() *core.Family {
+	bodies := []*Expr{
+		L(Bool(true)), L(Bool(false)), L(Long(1)), Bin(OAdd, L(Long(gen.MaxI)), L(Long(1))),
+		Bin(OEq, Access(Var("context"), "a"), L(Long(1))), Bin(OEq, Access(Var("context"), "a"), L(Long(2))), Access(Var("context"), "missing"),
+		Bin(OAnd, L(Bool(true)), Access(Var("context"), "a")),
+	}
+	nb := len(bodies) * 2
+	type clause struct {
+		when bool
+		body *Expr
+	}
+	var lists [][]clause
+	var rec func(cur []clause)
+	rec = func(cur []clause) {
+		if len(cur) > 0 {
+			lists = append(lists, append([]clause{}, cur...))
+		}
+		if len(cur) == 3 {
+			return
+		}
+		for k := 0; k < nb; k++ {
+			rec(append(cur, clause{k%2 == 0, bodies[k/2]}))
+		}
+	}
+	rec(nil)
+	return &core.Family{
+		Name: "condition-lists",
+		Desc: fmt.Sprintf("every list of 1..3 when/unless clauses over %d bodies (true, false, a non-boolean constant, an overflowing constant, request-dependent true / false / error, true && non-boolean) x {permit, forbid with an `is` scope}: %d policies x %d environments", len(bodies), 2*len(lists), len(implEnvs)),
+		N:    int64(2 * len(lists)),
+		Run: func(t *core.T, i int64) {
+			cl := lists[i/2]
+			forbid := i%2 == 1
+			mk := func() *xast.Policy {
+				p := xast.Permit()
+				if forbid {
+					p = xast.Forbid().PrincipalIs("U")
+				}
+				for _, c := range cl {
+					if c.when {
+						p.When(c.body.ToAST())
+					} else {
+						p.Unless(c.body.ToAST())
+					}
+				}
+				return p
+			}
+			in := func() string {
+				var sb strings.Builder
+				for _, c := range cl {
+					if c.when {
+						sb.WriteString("when { ")
+					} else {
+						sb.WriteString("unless { ")
+					}
+					sb.WriteString(c.body.String() + " } ")
+				}
+				return sb.String()
+			}
+			if checkPolicy(t, "condition-list", in, mk, false) {
+				t.Nontrivial()
+			}
+			t.SampleF(in)
+		},
+	}
 }
 
 func pow(b, e int) int64 {
@@ -316,7 +400,7 @@ func Check() *core.Check {
 			} else {
 				fams = append(fams, depth1("depth1-if", gen.Ternary, small, 3), depth2(small[:5]))
 			}
-			return append(fams, shortCircuit())
+			return append(fams, shortCircuit(), condLists())
 		},
 	}
 }
